@@ -230,7 +230,11 @@ def run_history(desc, canon, want_meta_cli=True):
             elif t == "cli_reveal":
                 pin, pout = os.path.join(d, "i%d.h5" % k), os.path.join(d, "o%d.h5" % k)
                 cur.save_h5(pin)
-                loaded = Screen.load_h5(pin)
+                loaded = impl_call(Screen.load_h5, pin)
+                if isinstance(loaded, ImplError):   # e.g. a plate left mixed by set_observed: main() fails at the same load
+                    out.extend([loaded, SKIP, SKIP])
+                    events.append((["saveload"], before, None, loaded, extra))
+                    continue
                 out.append(canon(loaded))
                 extra["loaded"] = snapshot(loaded)
 
@@ -341,8 +345,9 @@ def gen_parent(rng, small=False):
     names = rng.sample(sl.NAMES, rng.randint(1, 4)) + [ctrl]
     doses = rng.sample(sl.DOSES, rng.randint(1, 4))
     rows = []
-    for p in plates:
-        observed = rng.random() < 0.3
+    some_observed = rng.random() < 0.6
+    for j, p in enumerate(plates):
+        observed = (j == 0 and some_observed) or rng.random() < 0.15
         size = rng.choice([1, 1, 2, 2, 3, 4]) if not small else rng.choice([1, 2])
         own_s = rng.choice(sl.NAMES) if rng.random() < 0.5 else None       # sample confined to this plate
         own_t = [rng.choice(sl.NAMES), rng.choice(sl.DOSES)] if rng.random() < 0.5 else None
@@ -351,10 +356,10 @@ def gen_parent(rng, small=False):
             t = [[rng.choice(names), rng.choice(doses)] for _ in range(arity)]
             if own_t is not None and rng.random() < 0.6:
                 t[rng.randrange(arity)] = list(own_t)
-            if flavour < 0.12:
+            if flavour < 0.10:
                 o = rng.choice([0.0, -0.0])
-            elif flavour < 0.24:
-                o = rng.choice([float("nan"), 0.5, 0.0])
+            elif flavour < 0.22:
+                o = rng.choice([float("nan"), float("nan"), 0.5, 0.0])
             elif flavour < 0.30:
                 o = rng.choice([float("inf"), 0.0, -0.0, 0.25])
             else:
@@ -364,15 +369,35 @@ def gen_parent(rng, small=False):
     return dict(rows=rows, arity=arity, ctrl=ctrl, obs_given=True, mask_given=True, tmap=None, smap=None)
 
 
+def gen_walk(rng, cli=True):
+    """reveal the plates one or two at a time in a random order, sometimes naming an earlier plate again,
+    with a save+load / CLI step in between: the way a retrospective simulation advances"""
+    pool = list(range(rng.choice([2, 3, 4, 5])))
+    rng.shuffle(pool)
+    ops, done = [], []
+    while pool and len(ops) < 6:
+        k = rng.choice([1, 1, 2])
+        ids, pool = pool[:k], pool[k:]
+        if done and rng.random() < 0.3:
+            ids = ids + [rng.choice(done)]
+        done += ids
+        ops.append(["cli_reveal" if (cli and rng.random() < 0.25) else "reveal", ids])
+        if len(ops) < 6 and rng.random() < 0.3:
+            ops.append(["saveload"])
+    return ops[:6]
+
+
 def gen_ops(rng, with_setobs=False, cli=True, maxlen=6):
+    if rng.random() < 0.3:
+        return gen_walk(rng, cli)
     n = rng.choice([0, 1, 2, 2, 3, 3, 4, 5, 6])
     n = min(n, maxlen)
     ops = []
     for _ in range(n):
         x = rng.random()
         if x < 0.45:
-            k = rng.choice([0, 1, 1, 1, 2, 3])
-            ids = [rng.choice([0, 0, 1, 1, 2, 3, 4, 99, -3]) for _ in range(k)]
+            k = rng.choice([0, 1, 1, 1, 1, 1, 1, 1, 2, 2, 2, 3])
+            ids = [rng.choice([0] * 8 + [1] * 7 + [2] * 4 + [3, 3, 4, 99, -3]) for _ in range(k)]
             if cli and rng.random() < 0.12 and ids and min(ids) >= 0:
                 ops.append(["cli_reveal", ids])
             else:
